@@ -86,15 +86,17 @@ fn expected_parts(b: &[u8]) -> Parts {
 
 // ---- recording stub for from_parts ------------------------------------------------------
 
-static mut REC_PARTS: Option<Parts> = None;
-static mut REC_CALLS: u32 = 0;
-static mut REC_ACCEPT: bool = true;
+// NOTE: distinctive non-zero initialisers: kani-compiler may alias a zero-initialised `static mut` with a std
+// constant of the same bytes (measured in hk_batcher); real start values are stored at harness start.
+static mut REC_PARTS: Option<Parts> = Some(Parts { years: 0x5EE1, months: 0xA1, days: 0xA2, hours: 0xA3, minutes: 0xA4, seconds: 0xA5, nanos: 0x5EED_0001 });
+static mut REC_CALLS: u32 = 0x5EED_0002;
+static mut REC_ACCEPT: u32 = 0x5EED_0004;
 
 fn rec_from_parts(parts: Parts) -> Option<Timestamp> {
     unsafe {
         REC_PARTS = Some(parts);
         REC_CALLS += 1;
-        if REC_ACCEPT { Some(Timestamp::MIN) } else { None }
+        if REC_ACCEPT == 1 { Some(Timestamp::MIN) } else { None }
     }
 }
 
@@ -126,7 +128,7 @@ macro_rules! ts_fields {
         pub fn $name() {
             let b: [u8; $n] = sym_text();
             let accept: bool = kani::any();
-            unsafe { REC_ACCEPT = accept; REC_CALLS = 0; REC_PARTS = None; }
+            unsafe { REC_ACCEPT = accept as u32; REC_CALLS = 0; REC_PARTS = None; }
             let s = unsafe { core::str::from_utf8_unchecked(&b) };
             let r = Timestamp::try_from_str(s);
             let shape = shape_ok(&b);
@@ -193,7 +195,7 @@ ts_fields!(c15_q_ts_fields_len30, 30);
 
 // ---- formatter -> parser round trip on calendar parts -------------------------------------
 
-static mut STUB_PARTS: Parts = Parts { years: 0, months: 0, days: 0, hours: 0, minutes: 0, seconds: 0, nanos: 0 };
+static mut STUB_PARTS: Parts = Parts { years: 0x5EE3, months: 0xB1, days: 0xB2, hours: 0xB3, minutes: 0xB4, seconds: 0xB5, nanos: 0x5EED_0003 };
 
 fn stub_to_parts(_ts: &Timestamp) -> Parts {
     unsafe { STUB_PARTS }
@@ -234,7 +236,7 @@ fn fmt_with_prec<const N: usize>(w: &mut Buf<N>, prec: usize) -> core::fmt::Resu
 #[kani::stub(core::str::from_utf8, ascii_from_utf8)]
 pub fn c15_q_ts_fmt_shape_roundtrip() {
     let p = sym_parts();
-    unsafe { STUB_PARTS = p; REC_ACCEPT = true; REC_CALLS = 0; REC_PARTS = None; }
+    unsafe { STUB_PARTS = p; REC_ACCEPT = 1; REC_CALLS = 0; REC_PARTS = None; }
     let prec: usize = kani::any();
     kani::assume(prec <= 10);
     let mut w = Buf::<40>::new();
@@ -280,7 +282,7 @@ pub fn c15_q_ts_fmt_nanos_roundtrip() {
     let mut i = 0;
     while i < 9 { nanos += dg[i] as u32 * P10[i]; i += 1; }
     let p = Parts { years: 2024, months: 2, days: 29, hours: 23, minutes: 59, seconds: 59, nanos };
-    unsafe { STUB_PARTS = p; REC_ACCEPT = true; REC_CALLS = 0; REC_PARTS = None; }
+    unsafe { STUB_PARTS = p; REC_ACCEPT = 1; REC_CALLS = 0; REC_PARTS = None; }
     let prec: usize = kani::any();
     kani::assume(prec <= 10);
     let mut w = Buf::<40>::new();
